@@ -98,6 +98,29 @@ theorem add_any_table_wf_partial (s : TdfSt) (b : BlkArg) (c : Str) (now : Int) 
   rw [h3] at hwf hend
   exact add_keeps_table_wf _ _ _ _ slot ⟨b.typ, b.fmt, slot.off, b.size, b.cdate, b.mdate, now, c⟩ _ hslot hty rfl (Int.natCast_nonneg _) hpost htab hend hwf
 
+/-- FOREIGN FILES, table level (`_partial`), HISTORIES: start from ANY table that is well-formed and whose unused slots point behind the jump
+    table and behind all live data (`ForeignInv`: no assumption on the order of the entries, on gaps between the blocks, or on where in
+    the table the unused slots are). After any finite sequence of add / remove / replace / setter calls on real block types — accepted
+    or refused, in any mix — the table the object holds is again such a table: every live range behind the jump table and inside the
+    file, no two live ranges overlapping, every unused slot of size zero. (Missing for the full statement: the bytes — that the table
+    on disk parses back to this one and the file has that length — and re-entering a context; on foreign files those rest on the
+    correspondence and on `wfB` run on the real bytes.) -/
+theorem foreign_history_table_wf_partial (s : TdfSt) (ops : List Op) (hops : ∀ op ∈ ops, TableOp op) (flen : Nat)
+    (hinv : ForeignInv s.nEntries flen s.entries) :
+    ∃ flen', WFTable (runOps s ops).nEntries flen' (runOps s ops).entries := by
+  obtain ⟨f, h⟩ := foreign_history s ops hops flen hinv
+  exact ⟨f, h.1⟩
+
+/-- "in particular a block added after a removal never lands on top of a block that is still live" — on any such table -/
+theorem foreign_no_overlap_partial (s : TdfSt) (ops : List Op) (hops : ∀ op ∈ ops, TableOp op) (flen : Nat)
+    (hinv : ForeignInv s.nEntries flen s.entries) :
+    (liveOf (runOps s ops).entries).Pairwise Disjoint2 := by
+  obtain ⟨f, h⟩ := foreign_history s ops hops flen hinv
+  exact h.1.2.1
+
+/-- a start state: two blocks listed in the reverse of their storage order, a gap of 40 bytes between them, unused slot at the end of the data -/
+example : ForeignInv 3 5000 [⟨11, 1, 4040, 960, 0, 0, 0, []⟩, ⟨16, 1, 928, 3072, 0, 0, 0, []⟩, ⟨0, 0, 5000, 0, 0, 0, 0, []⟩] := by decide
+
 /-- the hypothesis is met by a table that lists two blocks in the REVERSE of their storage order (N = 3, 4 960-byte file) -/
 example : WFTable 3 4960 [⟨11, 1, 4000, 960, 0, 0, 0, []⟩, ⟨16, 1, 928, 3072, 0, 0, 0, []⟩, ⟨0, 0, 4960, 0, 0, 0, 0, []⟩] := by decide
 example : (removeBlock ⟨[], [], [⟨11, 1, 4000, 960, 0, 0, 0, []⟩, ⟨16, 1, 928, 3072, 0, 0, 0, []⟩, ⟨0, 0, 4960, 0, 0, 0, 0, []⟩], 3⟩ 11 7).1.entries.map (·.off)
